@@ -369,14 +369,15 @@ Proof.
   apply Forall2_map_same. intros r _. unfold tmle_ic_or. rewrite obs_swap, yval_swap, qs_swap. cbn [oaff].
   destruct (obs r); rewrite !Qred_correct; fold l'; rewrite !tmle_mean_swap, ?h1_swap, ?h0_swap; cbn [swap_row q1 q0 negb]; ring.
 Qed.
-(* log risk ratio: the observed-row influence value changes sign; the value the source assigns to a row with a
-   missing outcome, (Q1 - mean Q1) + (Q0 - mean Q0), is symmetric in the arms, so invariance needs complete outcomes *)
-Theorem tmle_var_lnrr_swap : EstimatorsProofs.complete l -> tmle_var_lnrr l' == tmle_var_lnrr l.
+(* log risk ratio: the influence value changes sign on observed rows and on rows with a missing outcome alike
+   (the missing-row value is (Q1 - mean Q1)/mean Q1 - (Q0 - mean Q0)/mean Q0 since the repair 4895d4a) *)
+Theorem tmle_var_lnrr_swap : tmle_var_lnrr l' == tmle_var_lnrr l.
 Proof.
-  intros Hc. unfold tmle_var_lnrr, l'. rewrite map_map, Qlen_map.
+  unfold tmle_var_lnrr, l'. rewrite map_map, Qlen_map.
   rewrite (ic_var_affine (-1) 0 (map (tmle_ic_rr (Qred (tmle_mean true l)) (Qred (tmle_mean false l))) l)); [ring|].
-  apply Forall2_map_same. intros r Hr. unfold tmle_ic_rr. rewrite obs_swap, yval_swap, qs_swap, (Hc r Hr). cbn [oaff].
-  rewrite !Qred_correct. fold l'. rewrite !tmle_mean_swap, h1_swap, h0_swap. cbn [swap_row q1 q0 negb]. ring.
+  apply Forall2_map_same. intros r _. unfold tmle_ic_rr. rewrite obs_swap, yval_swap, qs_swap. cbn [oaff].
+  destruct (obs r); rewrite !Qred_correct; fold l'; rewrite !tmle_mean_swap, ?h1_swap, ?h0_swap; cbn [swap_row q1 q0 negb];
+    unfold Qdiv; ring.
 Qed.
 
 (* sandwich variance of the marginal structural model *)
@@ -398,17 +399,15 @@ Proof.
 Qed.
 End Swap.
 
-(* The two log-risk-ratio influence curves of the source are NOT equivariant (the models of Model.Variance mirror the
-   source term by term, C06 compares them with the reported SE on every run):
-   AIPTW adds (Q1 - mean Q1) and (Q0 - mean Q0) with the SAME sign and without the 1/mean factors, so exchanging the
-   arms does not negate the influence value; TMLE does the same on rows with a missing outcome. *)
+(* The log-risk-ratio influence curve of AIPTW in the source is NOT equivariant (the model of Model.Variance mirrors the
+   source term by term, C06 compares it with the reported SE on every run): it adds (Q1 - mean Q1) and (Q0 - mean Q0)
+   with the SAME sign and without the 1/mean factors, so exchanging the arms does not negate the influence value.
+   (TMLE.fit did the same on rows with a missing outcome until the repair 4895d4a.) *)
 Definition mk (s : nat) (a : bool) (y : option Q) (g q1v q0v : Q) : row :=
   {| st := s; trt := a; yv := y; wt := 1; g1 := g; q1 := q1v; q0 := q0v; m1 := 1; m0 := 1 |}.
 Definition swap_witness : list row :=
   [ mk 0 true (Some 1) (1#2) (3#4) (1#4); mk 0 true (Some 0) (1#2) (3#4) (1#4); mk 0 false (Some 0) (1#2) (3#4) (1#4);
     mk 1 true (Some 1) (1#4) (1#2) (1#8); mk 1 false (Some 1) (1#4) (1#2) (1#8); mk 1 false (Some 0) (1#4) (1#2) (1#8) ].
-Definition swap_witness_miss : list row :=
-  swap_witness ++ [ mk 0 true None (1#2) (3#4) (1#4) ].
 Theorem aipw_var_lnrr_swap_fails :
   exists l, EstimatorsProofs.complete l /\ ~ aipw_var_lnrr (map swap_row l) == aipw_var_lnrr l.
 Proof.
@@ -416,10 +415,6 @@ Proof.
   - intros r Hr. vm_compute in Hr. repeat (destruct Hr as [<-|Hr]; [reflexivity|]). contradiction.
   - vm_compute. discriminate.
 Qed.
-Theorem tmle_var_lnrr_swap_fails_with_missing :
-  exists l, ~ tmle_var_lnrr (map swap_row l) == tmle_var_lnrr l.
-Proof. exists swap_witness_miss. vm_compute. discriminate. Qed.
-
 (* summary statement for the point estimates and the difference-scale / odds-ratio variances *)
 Theorem swap_treatment l :
   let l' := map swap_row l in
@@ -438,8 +433,7 @@ Theorem swap_treatment l :
      sw_var_lnrr (total_w stab (swap_target t) (1 - n) c0 c1) l' == sw_var_lnrr (total_w stab t n c1 c0) l /\
      sw_var_lnor (total_w stab (swap_target t) (1 - n) c0 c1) l' == sw_var_lnor (total_w stab t n c1 c0) l) /\
   (aipw_var_rd l' == aipw_var_rd l) /\
-  (tmle_var_rd l' == tmle_var_rd l /\ tmle_var_lnor l' == tmle_var_lnor l /\
-   (EstimatorsProofs.complete l -> tmle_var_lnrr l' == tmle_var_lnrr l)).
+  (tmle_var_rd l' == tmle_var_rd l /\ tmle_var_lnor l' == tmle_var_lnor l /\ tmle_var_lnrr l' == tmle_var_lnrr l).
 Proof.
   cbv zeta. repeat split; intros.
   - apply iptw_mu_swap.
@@ -462,7 +456,7 @@ Proof.
   - apply aipw_var_rd_swap.
   - apply tmle_var_rd_swap.
   - apply tmle_var_lnor_swap.
-  - apply tmle_var_lnrr_swap. assumption.
+  - apply tmle_var_lnrr_swap.
 Qed.
 
 (* ================================================================================================
